@@ -3,4 +3,5 @@ import PanqecVerif.Model.Code
 import PanqecVerif.Model.Batch
 import PanqecVerif.Proofs.Batch
 import PanqecVerif.Proofs.BatchInv
+import PanqecVerif.Proofs.BatchLive
 import PanqecVerif.Properties.C12
